@@ -167,6 +167,98 @@ func TestC15Check(t *testing.T) {
 			}
 		}
 
+		// And for a schema that grew: the types added one at a time without
+		// their relationships, looked up now and then on the way, the
+		// relationships added afterwards (a sound pair through AddTwoWayRel,
+		// the others one end at a time). Whatever an edit refuses is left out;
+		// the question is asked about what the schema holds in the end.
+		if rapid.IntRange(0, 2).Draw(t, "grown") == 0 {
+			g := &jsonapi.Schema{}
+			look := func(label string) {
+				if len(g.Types) == 0 {
+					return
+				}
+
+				name := g.Types[rapid.IntRange(0, len(g.Types)-1).Draw(t, label+"-which")].Name
+
+				switch rapid.IntRange(0, 4).Draw(t, label) {
+				case 0:
+					_ = g.HasType(name)
+				case 1:
+					_ = g.GetType(name)
+				case 2:
+					_ = g.Check()
+				case 3:
+					_ = g.HasType(name + "x")
+				}
+			}
+
+			if p := oracle.Try(func() {
+				for i := range ss.Types {
+					typ := jsonapi.Type{Name: ss.Types[i].Name}
+					for _, a := range ss.Types[i].Attrs {
+						_ = typ.AddAttr(a)
+					}
+
+					_ = g.AddType(typ)
+					look("grown-look")
+				}
+
+				done := map[string]bool{}
+				paired := map[string]jsonapi.Rel{}
+
+				for _, pr := range pairs {
+					paired[pr[0].rel.FromType+" "+pr[0].rel.FromName] = pr[0].rel
+				}
+
+				for i := range ss.Types {
+					for _, rel := range ss.Types[i].Rels {
+						key := ss.Types[i].Name + " " + rel.FromName
+						if done[key] {
+							continue
+						}
+
+						if x, ok := paired[key]; ok && rapid.Bool().Draw(t, "grown-twoway") {
+							if g.AddTwoWayRel(x) == nil {
+								done[key], done[x.ToType+" "+x.ToName] = true, true
+							}
+
+							continue
+						}
+
+						_ = g.AddRel(ss.Types[i].Name, rel)
+						done[key] = true
+
+						if rapid.IntRange(0, 3).Draw(t, "grown-look-between") == 0 {
+							look("grown-look2")
+						}
+					}
+				}
+			}); p != nil {
+				t.Fatalf("C15 violated: growing the schema %s\nschema: %s", p, ss)
+			}
+
+			specs := make([]gen.TypeSpec, len(g.Types))
+			for i := range g.Types {
+				specs[i].Name = g.Types[i].Name
+
+				for _, k := range gen.SortedKeys(g.Types[i].Attrs) {
+					specs[i].Attrs = append(specs[i].Attrs, g.Types[i].Attrs[k])
+				}
+
+				for _, k := range gen.SortedKeys(g.Types[i].Rels) {
+					specs[i].Rels = append(specs[i].Rels, g.Types[i].Rels[k])
+				}
+			}
+
+			ss3 := &gen.SchemaSpec{Types: specs, Schema: g}
+			if msg, _, _ := checkOracle(ss3); msg != "" {
+				t.Fatalf("C15 violated: %s\nschema (grown type by type, relationships added afterwards): %s", msg, ss3)
+			}
+
+			r.Label("grown")
+		}
+
 		twoWay := 0
 
 		for i := range ss.Types {
